@@ -8,6 +8,7 @@ import (
 	"encoding/csv"
 	"fmt"
 	"io"
+	"math"
 	"strconv"
 	"strings"
 	"unicode"
@@ -507,7 +508,7 @@ func parseValue(strValue string, baseType basetype.BaseType, profileType profile
 	case basetype.Enum, basetype.Byte,
 		basetype.Uint8, basetype.Uint8z:
 		if isScaled {
-			return proto.Uint8(uint8(scaledValue)), nil
+			return proto.Uint8(uint8(math.Round(scaledValue))), nil
 		}
 		var v uint64
 		v, err = strconv.ParseUint(strValue, 0, 8)
@@ -517,7 +518,7 @@ func parseValue(strValue string, baseType basetype.BaseType, profileType profile
 		return proto.Uint8(uint8(v)), nil
 	case basetype.Sint8:
 		if isScaled {
-			return proto.Int8(int8(scaledValue)), nil
+			return proto.Int8(int8(math.Round(scaledValue))), nil
 		}
 		var v int64
 		v, err = strconv.ParseInt(strValue, 0, 8)
@@ -527,7 +528,7 @@ func parseValue(strValue string, baseType basetype.BaseType, profileType profile
 		return proto.Int8(int8(v)), nil
 	case basetype.Sint16:
 		if isScaled {
-			return proto.Int16(int16(scaledValue)), nil
+			return proto.Int16(int16(math.Round(scaledValue))), nil
 		}
 		var v int64
 		v, err = strconv.ParseInt(strValue, 0, 16)
@@ -537,7 +538,7 @@ func parseValue(strValue string, baseType basetype.BaseType, profileType profile
 		return proto.Int16(int16(v)), nil
 	case basetype.Uint16, basetype.Uint16z:
 		if isScaled {
-			return proto.Uint16(uint16(scaledValue)), nil
+			return proto.Uint16(uint16(math.Round(scaledValue))), nil
 		}
 		var v uint64
 		v, err = strconv.ParseUint(strValue, 0, 16)
@@ -547,7 +548,7 @@ func parseValue(strValue string, baseType basetype.BaseType, profileType profile
 		return proto.Uint16(uint16(v)), nil
 	case basetype.Sint32:
 		if isScaled {
-			return proto.Int32(int32(scaledValue)), nil
+			return proto.Int32(int32(math.Round(scaledValue))), nil
 		}
 		var v int64
 		v, err = strconv.ParseInt(strValue, 0, 32)
@@ -557,7 +558,7 @@ func parseValue(strValue string, baseType basetype.BaseType, profileType profile
 		return proto.Int32(int32(v)), nil
 	case basetype.Uint32, basetype.Uint32z:
 		if isScaled {
-			return proto.Uint32(uint32(scaledValue)), nil
+			return proto.Uint32(uint32(math.Round(scaledValue))), nil
 		}
 		var v uint64
 		v, err = strconv.ParseUint(strValue, 0, 32)
@@ -589,7 +590,7 @@ func parseValue(strValue string, baseType basetype.BaseType, profileType profile
 		return proto.Float64(v), nil
 	case basetype.Sint64:
 		if isScaled {
-			return proto.Int64(int64(scaledValue)), nil
+			return proto.Int64(int64(math.Round(scaledValue))), nil
 		}
 		var v int64
 		v, err = strconv.ParseInt(strValue, 0, 64)
@@ -599,7 +600,7 @@ func parseValue(strValue string, baseType basetype.BaseType, profileType profile
 		return proto.Int64(v), nil
 	case basetype.Uint64, basetype.Uint64z:
 		if isScaled {
-			return proto.Uint64(uint64(scaledValue)), nil
+			return proto.Uint64(uint64(math.Round(scaledValue))), nil
 		}
 		var v uint64
 		v, err = strconv.ParseUint(strValue, 0, 64)
